@@ -93,6 +93,10 @@ def build(case, collect, max_errors=None):
             params.append(f"{f['name']}=None" if f.get("default") == "none" or not f.get("default") else f"{f['name']}=7")
         else:
             params.append(f["name"])
+    if case.get("kwvar") is not None:
+        params.append("**kw")
+        if case["kwvar"] != "any":
+            ann["kw"] = T(case["kwvar"])
     src = f"def fn({', '.join(params)}):\n    seen['v'] = dict(locals()); seen['v'].pop('seen', None)\n    return None\n"
     g = {"seen": seen}
     exec(src, g)
@@ -107,11 +111,18 @@ def build(case, collect, max_errors=None):
     return run
 
 
+def _item(x):
+    i = getattr(x, "item", None)
+    if isinstance(i, str) and i.startswith("**kw:"):
+        return i[5:]     # keyword collected by **kw is reported as '**kw:<key>'
+    return i
+
+
 def error_items(e):
     from utype.utils.exceptions import CollectedParseError
     if isinstance(e, CollectedParseError):
-        return [(type(x).__name__, getattr(x, "item", None)) for x in e.errors]
-    return [(type(e).__name__, getattr(e, "item", None))]
+        return [(type(x).__name__, _item(x)) for x in e.errors]
+    return [(type(e).__name__, _item(e))]
 
 
 def failing_items(case):
@@ -119,7 +130,7 @@ def failing_items(case):
     import utype
     o = dict(case.get("options") or {})
     addition = o.get("addition")
-    conv_opts = entries.make_options({k: v for k, v in o.items() if k in ("no_explicit_cast", "no_data_loss")})
+    conv_opts = entries.make_options({k: v for k, v in o.items() if k in ("no_explicit_cast", "no_data_loss", "addition")})   # addition also governs extra tuple items / nested keys
     reg = {}
     inp = {k: v for k, v in case["input"]}
     failing, conv = set(), 0
@@ -141,6 +152,13 @@ def failing_items(case):
     for k in inp:
         if k not in names and addition is False and case["kind"] != "func":
             failing.add(k)
+        elif k not in names and case["kind"] == "func" and isinstance(case.get("kwvar"), dict):
+            Tt = tspec.build(case["kwvar"], decl_builder=lambda d: reg.setdefault(d["name"], dspec.build_decl(d)))
+            r = oracle.reject_raw(oracle.outcome(utype.type_transform, codec.decode(inp[k]), Tt, conv_opts))
+            if r[0] == "perr":
+                failing.add(k)
+            elif r[0] != "ok":
+                return None, 0
     return failing, conv
 
 
@@ -161,8 +179,12 @@ def run_case(case):
     keys = [k for k, _ in inp]
     if len(set(keys)) != len(keys) or not all(isinstance(k, str) and k.isidentifier() for k in keys):
         raise HarnessError("bad input keys")
-    if kind == "func" and any(k not in seen for k in keys):
-        raise HarnessError("function cases take declared names only")
+    if kind == "func" and case.get("kwvar") is None and any(k not in seen for k in keys):
+        raise HarnessError("function cases without **kw take declared names only")
+    if "kw" in seen or "kw" in keys:
+        raise HarnessError("reserved name")
+    if isinstance(case.get("kwvar"), dict):
+        tspec.validate(case["kwvar"])
     from .c09 import _one_shot_spec
     if _one_shot_spec(inp):
         raise HarnessError("one-shot value")
@@ -259,14 +281,19 @@ def cases(draw):
             continue
         v = draw(gen.conforming(f["type"]) if how == "good" else st.one_of(JUNK, JUNK, gen.conforming(f["type"])))
         inp.append([f["name"], v])
-    if kind != "func":
-        for _ in range(draw(st.sampled_from([0, 0, 1, 2]))):
+    kwvar = None
+    if kind == "func" and draw(st.booleans()):
+        kwvar = draw(st.sampled_from(["any", TYPES[0], TYPES[2], TYPES[3], TYPES[6]]))
+    if kind != "func" or kwvar is not None:
+        for _ in range(draw(st.sampled_from([0, 0, 1, 2, 3]))):
             k = draw(st.sampled_from(["x1", "x2", "zz"]))
             if all(k != p[0] for p in inp):
-                inp.append([k, draw(st.sampled_from([1, "v", None]))])
+                inp.append([k, draw(st.sampled_from([1, "v", None, "7", {"t": "list", "v": ["q"]}]))])
     case = {"kind": kind, "fields": fields, "input": inp, "max_errors": draw(st.sampled_from([None, None, 1, 2, 3]))}
     if o:
         case["options"] = o
+    if kwvar is not None:
+        case["kwvar"] = kwvar
     return case
 
 
